@@ -10,6 +10,10 @@
 (*   (else the harness is wrong), that ParseModel agrees with the tree (else the *)
 (*   model is wrong - both reported as infrastructure trouble), and then that    *)
 (*   the real result is the spelling of the tree / the documented error classes. *)
+(*   conc: the distinct (worker, output) pairs seen when both compiled templates  *)
+(*   are evaluated by 3 goroutines at once, 4 times each, every goroutine against *)
+(*   its own context (answers tagged :w): each must be the spelling of the tree   *)
+(*   in that worker's context (ExprSyntaxEval.tla: evaluations share nothing).    *)
 (* kind "wild": arbitrary text (random edits with { } " \ blanks), outside the   *)
 (*   documented domain: the compiler only has to return.                         *)
 (* The trace spec is total: every record is consumed, what the specification     *)
@@ -40,6 +44,7 @@ Class(r) ==
     IF ~RoundTripOK(r.tpl) THEN "model"
     ELSE IF r.errs # <<>> \/ r.errs2 # <<>> THEN "errs"
     ELSE IF r.out # Spell(StripT(r.tpl)) \/ r.out2 # Spell(StripT(r.tpl)) THEN "out"
+    ELSE IF \E j \in 1..Len(r.conc) : r.conc[j].out # SpellT(StripT(r.tpl), <<58>> \o Itoa(r.conc[j].w)) THEN "conc"
     ELSE "ok"
 
 TInit == l = 1 /\ bad = <<>> /\ nontrivial = 0
